@@ -227,8 +227,8 @@ def _run_one(args):
         und = [o for o in res.obligations if o.status == "undecided"]
         if bad:
             return (vid, kind, prop, "violation", sorted({o.rule for o in bad}), round(time.time() - t0, 2))
-        if und:
-            return (vid, kind, prop, "analysis-error", sorted({o.rule for o in und}), round(time.time() - t0, 2))
+        if und and kind == "B":
+            return (vid, kind, prop, "silent", ["undecided:" + ",".join(sorted({o.rule for o in und}))], round(time.time() - t0, 2))
         low = [n for n, (m, mn) in res.floors.items() if m < mn]
         if low:
             return (vid, kind, prop, "analysis-error", ["floor:" + x for x in low], round(time.time() - t0, 2))
